@@ -24,6 +24,10 @@ type TransSpec struct {
 	Dir     string   // package directory below the repository root
 	Structs []string // struct types that become Records
 	Funcs   []string // "Recv.Name" or "Name"; callees inside the package are pulled in automatically
+	// InOut (opt-in, see "In-out slice parameters" in TRANSLATOR.md): a slice parameter that a function only indexes,
+	// measures, ranges over or passes on in the same way, and whose elements it writes, is returned to the caller
+	// (after the receiver, before the results) and the caller rebinds the variable / field it passed.
+	InOut bool
 }
 
 type unsupported struct{ msg string }
@@ -37,6 +41,7 @@ const (
 	kElem               // a type parameter -> Z, zero value 0
 	kSlice              // []int-like / []T -> list Z
 	kStruct             // a translated struct (or a pointer to it) -> its Record
+	kFunc               // a function-typed parameter / field (trans_func.go) -> a Gallina function
 )
 
 type gtype struct {
@@ -44,6 +49,7 @@ type gtype struct {
 	bits int
 	st   *structInfo
 	ptr  bool
+	fn   *funcSig // kFunc
 }
 
 func (g gtype) coq() string {
@@ -54,6 +60,8 @@ func (g gtype) coq() string {
 		return "list Z"
 	case kStruct:
 		return g.st.name
+	case kFunc:
+		return g.fn.coq()
 	}
 	return "Z"
 }
@@ -65,6 +73,8 @@ func (g gtype) zero() string {
 		return "[]"
 	case kStruct:
 		return "zero_" + g.st.name
+	case kFunc:
+		return "nil_func_is_not_modelled" // never emitted: declarations needing it are refused (trans_func.go)
 	}
 	return "0"
 }
@@ -88,6 +98,8 @@ type funcInfo struct {
 	loops   bool // contains a loop (directly or through calls): takes `fuel`
 	callees map[*funcInfo]bool
 	done    bool
+	noesc   []bool // per parameter (trans_func.go): a slice the function neither keeps, reslices, returns nor reassigns
+	inout   []bool // per parameter: noesc and written in place (directly or through calls): returned to the caller
 }
 
 type Translator struct {
@@ -99,6 +111,7 @@ type Translator struct {
 	byName  map[string]*ast.FuncDecl
 	order   []*funcInfo
 	global  map[string]bool // Coq names that locals must not shadow
+	inOut   bool            // TransSpec.InOut
 }
 
 type stubImporter struct{}
@@ -164,6 +177,10 @@ func (t *Translator) typeOf(ty types.Type, n ast.Node) gtype {
 				return gtype{k: kStruct, st: si, ptr: true}
 			}
 		}
+	case *types.Signature:
+		if fs := t.funcSigOf(x, n); fs != nil {
+			return gtype{k: kFunc, fn: fs}
+		}
 	case *types.Named:
 		if si := t.structs[x.Origin().Obj()]; si != nil {
 			return gtype{k: kStruct, st: si}
@@ -218,7 +235,7 @@ func Translate(repo string, spec TransSpec) (out string, err error) {
 		return "", e
 	}
 	t := &Translator{fset: p.Fset, repo: repo, structs: map[*types.TypeName]*structInfo{}, funcs: map[*types.Func]*funcInfo{},
-		byName: map[string]*ast.FuncDecl{}, global: map[string]bool{}}
+		byName: map[string]*ast.FuncDecl{}, global: map[string]bool{}, inOut: spec.InOut}
 	defer func() {
 		if r := recover(); r != nil {
 			if u, ok := r.(unsupported); ok {
@@ -320,12 +337,16 @@ func (si *structInfo) emit() string {
 		}
 		b.WriteString(".\n")
 	}
-	fmt.Fprintf(&b, "Definition zero_%s : %s := mk%s", si.name, si.name, si.name)
-	for _, ft := range si.ftypes {
-		b.WriteString(" " + ft.zero())
+	if si.hasFunc() { // a nil function value is not modelled: no zero value (declarations needing one are refused)
+		fmt.Fprintf(&b, "#[export] Hint Unfold")
+	} else {
+		fmt.Fprintf(&b, "Definition zero_%s : %s := mk%s", si.name, si.name, si.name)
+		for _, ft := range si.ftypes {
+			b.WriteString(" " + ft.zero())
+		}
+		b.WriteString(".\n")
+		fmt.Fprintf(&b, "#[export] Hint Unfold zero_%s", si.name)
 	}
-	b.WriteString(".\n")
-	fmt.Fprintf(&b, "#[export] Hint Unfold zero_%s", si.name)
 	for _, f := range si.fields {
 		fmt.Fprintf(&b, " set_%s_%s %s_%s", si.name, f, si.name, f)
 	}
@@ -372,6 +393,9 @@ func (t *Translator) addFunc(key string) *funcInfo {
 		g := t.typeOf(rv.Type(), fd)
 		if g.k == kStruct && g.ptr {
 			t.fail(fd, "pointer result of %s", key)
+		}
+		if g.k == kFunc {
+			t.fail(fd, "function-typed result of %s", key)
 		}
 		fi.results = append(fi.results, g)
 	}
@@ -482,6 +506,11 @@ func (t *Translator) assigned(n ast.Node, set map[types.Object]bool) {
 					}
 				}
 			}
+			for _, a := range t.writtenArgs(x) { // in-out slice arguments (trans_func.go)
+				if o, _ := t.rootObj(a); o != nil {
+					set[o] = true
+				}
+			}
 		}
 		return true
 	})
@@ -520,11 +549,17 @@ func (t *Translator) analyse() {
 						fi.callees[t.funcFor(fn, c)] = true
 					}
 				}
+				if id, ok := m.(*ast.Ident); ok { // a package function used as a value (trans_func.go)
+					if fn := t.funcValueRef(id); fn != nil {
+						fi.callees[t.funcFor(fn, id)] = true
+					}
+				}
 				return true
 			})
 			fi.loops = hasLoop(fi.decl.Body)
 		}
 	}
+	t.analyseInOut()
 	for changed := true; changed; {
 		changed = false
 		for _, fi := range t.funcs {
